@@ -41,6 +41,7 @@ def replay(ctx, cx, h=None):
     kind = c.get('kind') or ('kernel' if 'cx_mode' in c else 'msg')
     if kind == 'kernel': return replay_kernel(ctx, c, h)
     if kind == 'hdr': return replay_hdr(ctx, c, h)
+    if 'cx_lendig' in c: return replay_precond(ctx, c, h)
     if kind == 'data' or 'cx_data' in c: return replay_data(ctx, c, h)
     if kind == 'mtype' or 'cx_mt' in c or 'cx_garb' in c: return replay_mtype(ctx, c, h)
     return replay_msg(ctx, c, h)
@@ -251,24 +252,38 @@ def add_c03_objects(ctx, defs):
                     desc='decode_group terminates: it creates no more elements than the input can hold; the message is accepted or a fix8 exception is raised', **common))
 
 def add_c03_databound(ctx, defs):
-    """C03, Length/data branch at the capacity of the decoder's value buffer: a second build of the decoder world with
-    FIX8_MAX_FLD_LENGTH scaled to 8 (so that the boundary lengths 7 and 8 fit the token table), tokenizer cut, no groups.
-    n = capacity-1 must decode byte-identical, n = capacity must be refused; CBMC's bounds checks watch val[val_sz] = 0."""
+    """C03, Length/data branch at the capacity of the decoder's value buffer, by composition: the kernel harnesses C03_fw_* prove the
+    fixed-width extractor memory safe for every val_sz <= capacity - 1 (it stores val[val_sz] = 0 and takes no capacity for val); this
+    harness runs the real MessageBase::decode on a Length/data pair whose Length text is two ARBITRARY digits and asserts, at the call
+    site (ir2c --wrap), that decode only ever passes such a val_sz.  A failing assertion is a candidate; the replay decides it with a
+    message whose Length has the same distance to the real capacity (2048) under ASan."""
     world(ctx)
-    ext = ['-DFIX8_MAX_FLD_LENGTH=8']
+    ext = ['-DFIX8_MAX_FLD_LENGTH=%d' % FLD]
     shim = ctx.build_ir('codec_world.cpp', 'cut', extra=ext); msg = ctx.build_ir(REPO + '/runtime/message.cpp', 'cut', extra=ext)
-    ll = ctx.link_ir([shim, msg], 'codecworld_f8')
-    ctx.translate(ll, WORLD_ROOTS, 'world_tkng_f8.c', stubs={SYMS['dgroup']: 'st_no_group'}, stubfiles=['codec_world.stubs', 'codec_tok.stubs', 'common.stubs'],
-                  models=['cxx.c', 'stubs.c', 'codec.c'], provided=['vf_rec_create', 'vf_next_element'])
-    for n, rej in ((3, 0), (7, 0), (8, 1)):
-        for place, nm in ((1, 'body_95_96'),) + (((0, 'header_90_91'),) if ctx.tier == 'thorough' else ()):
-            ctx.add(Harness('C03_datalen_%s_n%d' % (nm, n), VERIF + '/harness/C06_data.c',
-                            defines=[d for d in defs if d != 'KF_SIG_PAIR'] + WORLD_DEFS + ['WORLD_FILE="world_tkng_f8.c"', 'PLACE=%d' % place, 'NDATA=8', 'NFIX=%d' % n, 'TKV=8', 'VMAXB=9', 'CONCRETE_DATA', 'VF_MAXCOPY=%d' % FLD] + (['EXPECT_REJECT'] if rej else []),
-                            unwind=14, unwindset=us_decode(14), flags=['-I', VERIF + '/shims', '--max-field-sensitivity-array-size', '128'], object_bits=14, timeout=900,
-                            functions=FUN_DECODE + ['FIX8::MessageBase::extract_element_fixed_width', 'MessageBase::decode: ft_Length branch incl. its capacity test'],
-                            stubs=STUBS_DECODE + [STUB_TOK + ' (never applied to the data token: asserted)', STUB_NOGRP],
-                            bounds='Logon message with the Length/data pair in the %s, FIX8_MAX_FLD_LENGTH scaled to 8, data length n = %d (%s), data bytes fixed letters' % (nm.split('_')[0], n, 'capacity: must be refused' if rej else 'capacity - 1: must decode'),
-                            desc='boundary of the value buffer: no write past val[], refusal at the capacity'))
+    ll = ctx.link_ir([shim, msg], 'codecworld')
+    ctx.translate(ll, WORLD_ROOTS, 'world_tkng_w.c', stubs={SYMS['dgroup']: 'st_no_group'}, stubfiles=['codec_world.stubs', 'codec_tok.stubs', 'common.stubs'],
+                  models=['cxx.c', 'stubs.c', 'codec.c'], provided=['vf_rec_create', 'vf_next_element'], opts=['--wrap', SYMS['fw']])
+    for place, nm in ((1, 'body_95_96'),) + (((0, 'header_90_91'), (2, 'trailer_93_89')) if ctx.tier == 'thorough' else ()):
+        ctx.add(Harness('C03_datalen_%s' % nm, VERIF + '/harness/C06_data.c',
+                        defines=[d for d in defs if d != 'KF_SIG_PAIR'] + WORLD_DEFS + ['WORLD_FILE="world_tkng_w.c"', 'PLACE=%d' % place, 'NDATA=3', 'NFIX=2', 'FW_PRECOND', 'FLDCAP=%d' % FLD,
+                                 'FW_SYM=' + SYMS['fw'], 'W_FW_SYM=w_' + SYMS['fw'], 'VF_MAXCOPY=%d' % FLD],
+                        unwind=14, unwindset=us_decode(14), flags=['-I', VERIF + '/shims', '--max-field-sensitivity-array-size', '128'], object_bits=14, timeout=900,
+                        functions=FUN_DECODE + ['MessageBase::decode: ft_Length branch incl. its capacity test (runtime/message.cpp)', 'FIX8::MessageBase::extract_element_fixed_width (behind the asserted precondition)'],
+                        stubs=STUBS_DECODE + [STUB_TOK + ' (never applied to the data token: asserted)', STUB_NOGRP],
+                        bounds='Logon message with the Length/data pair in the %s; Length text = two arbitrary digits (00..99), 2 data bytes; FIX8_MAX_FLD_LENGTH scaled to %d' % (nm.split('_')[0], FLD),
+                        desc='call-site precondition of the fixed-width extractor: val_sz <= capacity - 1 (composition with the C03_fw_* kernel harnesses)'))
+
+def replay_precond(ctx, c, h):
+    """candidate from C03_datalen_*: the same distance to the real capacity, enough data bytes for the extractor to write, under ASan"""
+    vs = int(c.get('cx_valsz', 0)); cap = int(c.get('cx_fldcap') or FLD); place = int(c.get('cx_place', 1))
+    real = 2048 + (vs - cap)
+    lt, dt = ((90, 91), (95, 96), (93, 89))[place]
+    pair = b'%d=%d\x01%d=' % (lt, real, dt) + b'x' * real + b'\x01'
+    msg = (b'8=FIX.4.2\x019=12\x0135=A\x0149=a\x0156=b\x0134=1\x0152=20130304-02:44:30\x01' + (pair if place == 0 else b'') + b'98=0\x01108=3\x01' + (pair if place == 1 else b'') +
+           b'141=Y\x01' + (pair if place == 2 else b'') + b'10=000\x01')
+    rc, out = run_replay(ctx, 'factory', msg.hex(), 1, 0, 0)
+    what = 'scaled world: decode passes val_sz=%d to the extractor for a value buffer of %d; real size: Length=%d with %d data bytes through Message::factory (value buffer 2048): %s' % (vs, cap, real, real, _short(out))
+    return sanitizer_hit(rc, out), what
 
 # ------------------------------------------------------------------ the token-level decoder world
 WORLD_ROOTS = ['vf_ctx_setup', 'vf_msg_entry_fn', 'vf_ctx_mk_hdr', 'vf_ctx_mk_trl', 'vf_tab_hdr', 'vf_tab_body', 'vf_tab_grp', 'vf_tab_trl', 'vf_mk_header', 'vf_mk_trailer',
